@@ -349,6 +349,14 @@ func ccState(s *Sim, cc *grpc.ClientConn) string {
 	return "other"
 }
 
+// foreignConn is a channel decorator that is not the library's own wrapper
+// type but implements its WrappedClientConn interface.
+type foreignConn struct{ grpc.ClientConnInterface }
+
+func (f *foreignConn) Unwrap() grpc.ClientConnInterface { return f.ClientConnInterface }
+
+var _ grpchan.WrappedClientConn = (*foreignConn)(nil)
+
 func (s *Sim) rpcByCall(method string) *rpcState {
 	for _, rs := range s.rpcs {
 		if rs.r.Call == method {
@@ -375,6 +383,10 @@ func (s *Sim) wrapClient(c grpc.ClientConnInterface) grpc.ClientConnInterface {
 		}
 		if l.Stream {
 			st = s.clientStreamInt(fmt.Sprintf("L%d", i), l)
+		}
+		if l.Foreign {
+			// an application's own decorator between this layer and the rest
+			out = &foreignConn{out}
 		}
 		next := grpchan.InterceptClientConn(out, u, st)
 		if u == nil && st == nil {
